@@ -40,6 +40,15 @@ var anchored = []string{
 // with their input (helpers of crypto/crypto.go: getSHAHash slices the algorithm name).
 var reachable = []string{"crypto/crypto.go"}
 
+// covered: files the property TEXT covers ("metadata and configuration maps", every parser of a
+// caller-supplied string) although the record's anchors do not name them. They are inventoried exactly
+// like the anchored files.
+var covered = []string{"config/prefix.go", "metadata/properties.go", "utils/strings.go", "utils/env.go", "retry/retry.go"}
+
+// coveredDirs: packages whose every non-test source file must be anchored, reachable or covered: a new file
+// in one of them (a new decoder of maps or strings) has to be listed before the inventory is accepted.
+var coveredDirs = []string{"config", "metadata", "utils", "retry"}
+
 // internalPartial: dapr/kit functions that panic on part of their domain; a call to one is a site. The set
 // is closed below (closePartial): a function that hands its own parameter to a partial function without
 // a `switch <parameter>` case guard is partial too.
@@ -1078,7 +1087,27 @@ func main() {
 
 	byDir := map[string][]string{}
 	dirs := []string{}
-	for _, f := range append(append([]string{}, anchored...), reachable...) {
+	listed := append(append(append([]string{}, anchored...), reachable...), covered...)
+	for _, d := range coveredDirs {
+		entries, err := os.ReadDir(filepath.Join(*repo, d))
+		if err != nil {
+			fail("read %s: %v", d, err)
+		}
+		for _, e := range entries {
+			name := e.Name()
+			if e.IsDir() || !strings.HasSuffix(name, ".go") || strings.HasSuffix(name, "_test.go") || strings.HasPrefix(name, "zz_verif") {
+				continue
+			}
+			have := false
+			for _, f := range listed {
+				have = have || f == d+"/"+name
+			}
+			if !have {
+				fail("%s/%s: a source file of a package that decodes caller-supplied maps/strings is neither anchored nor covered: list it", d, name)
+			}
+		}
+	}
+	for _, f := range listed {
 		d := filepath.Dir(f)
 		if _, ok := byDir[d]; !ok {
 			dirs = append(dirs, d)
@@ -1298,6 +1327,18 @@ func main() {
 		pn = append(pn, n)
 	}
 	sort.Strings(pn)
+	sc := append([]string{}, covered...)
+	sort.Strings(sc)
+	cl := make([]string, len(sc))
+	for i, f := range sc {
+		cl[i] = leanStr(f)
+	}
+	fmt.Fprintf(&b, "/-- files the property text covers (metadata and configuration maps, parsers of caller-supplied strings) beyond the anchored list; inventoried like the anchored files -/\ndef coveredFiles : List String := [%s]\n\n", strings.Join(cl, ", "))
+	dl := make([]string, len(coveredDirs))
+	for i, f := range coveredDirs {
+		dl[i] = leanStr(f)
+	}
+	fmt.Fprintf(&b, "/-- packages of which every non-test source file is inventoried (factgen fails on an unlisted file) -/\ndef coveredDirs : List String := [%s]\n\n", strings.Join(dl, ", "))
 	b.WriteString("/-- dapr/kit functions that panic on part of their domain (every call to one is a site) -/\ndef partialFunctions : List (String × String) := [\n")
 	for i, n := range pn {
 		sep := ","
